@@ -1442,14 +1442,17 @@ def l2_execute(case):
     if features(values)["placeholder"]:
         values = avoid_documented_sentinel(values, out)
     assign_none = case["assignNone"]
-    if not assign_none and col["dt"] in _STRS:
-        # an object left unassigned keeps the value the parameter already has (0.0 for some shapes' massHmBOL): next to
-        # text that would be a text/number column of the harness' own making (np.array() turns it into text before armi
-        # looks at it; no layer generates that shape) - assign None instead
+    if not assign_none:
+        # an object left unassigned keeps the value the parameter already has (0.0 for some shapes' massHmBOL).  Next to
+        # entries of another kind that is a mixed-kind column of the harness' own making (np.array() turns text + number
+        # into text, 64-bit integers + 0.0 into float64, before armi looks at it; no layer generates those shapes):
+        # assign None instead
+        dt = col["dt"]
+        kind = "i" if dt in _INT_RANGES else "f" if dt in _FLOAT_WIDTH else "b" if dt in _BOOLS else "s"
         kept = [o.p[pname] for o, v in zip(objs, values) if v is None]
-        if any(k_ is not None and not isinstance(k_, str) for k_ in kept):
+        if any(k_ is not None and (_is_seq(k_) or isinstance(k_, dict) or _kind_of_scalar(k_) != kind) for k_ in kept):
             assign_none = True
-            out.label("forced-assign-none:text-next-to-numeric-default")
+            out.label("forced-assign-none:kept-value-of-another-kind")
     try:
         for o, v in zip(objs, values):
             if v is None and not assign_none:
